@@ -55,12 +55,22 @@ CHECKS['C06'] = dict(
     note='Trusted: rustc MIR dump, vf.engine, vf.ideal, AES-ECB/CRC/FNV as arbitrary functions, z3. VMess user-id matching (auth id + sealed header under a registered key) is covered by the C04 server job on valid input and C07 on arbitrary input, not yet by an adversarial log here; Shadowsocks UDP identity headers and the process-wide UDP cipher cache are outside. Whether the server dials is decided by the first item (async relay_to is outside).',
     technique='MIR symbolic execution to z3 (ideal-AEAD ghost log of non-credentialed ciphertexts; accept implies credential)', design='DESIGN.md section 2, C06')
 
+CHECKS['C01'] = dict(
+    text='Codec composition, the only layer that transforms bytes: the REAL client encoder (Shadowsocks TCP, AEAD and 2022 ciphers) is executed for a script of application writes of arbitrary content towards an arbitrary target (IPv4, IPv6 or domain), and the buffer it produced - with the key identities, nonces and framing it really used recorded in the ideal-AEAD log - is read by the REAL server decoder (server PayloadCodec) through the FramedRead loop model in 1 or 2 segments with a symbolic cut: the first item is the connect item naming exactly the requested address and the concatenation of everything released equals the concatenation of everything written. Counterexamples are replayed natively with the real ciphers end to end (real client codec -> real FramedRead -> real server codec).',
+    note='Bounds: write sizes from a grid of concrete values (quick (1,64) (37,5); thorough adds empty first writes, 65494/65495/70000-byte writes crossing the chunk limit, three-write scripts); contents, addresses, ports, salts, cut points symbolic. Write sizes of every value are covered on the encoder side by C03. VMess and Trojan compositions, the response direction, the two forward pumps, try_join!, EOF propagation, transports and sockets are outside: a change confined to relay_tcp/relay_bidirectional is not detected.',
+    technique='MIR symbolic execution to z3 (real encoder output fed to the real decoder under the ideal-AEAD log)', design='DESIGN.md section 2, C01 and section 7')
+
+CHECKS['C03'] = dict(
+    text='Sender side of the wire format on the real code: the Shadowsocks TCP encoders (three AEAD ciphers and three 2022 ciphers, client and server mode) are executed on a write of symbolic length and content followed by a second write; the sequence of (key identity, nonce, plaintext) they seal and the bytes they emit are compared with the layout the specifications prescribe: session key derived from (pre-shared key, the salt that starts the stream), nonces 0,1,2,... in sealing order, every length chunk announcing exactly the following payload chunk, payload chunks within the sender limit (0x3FFF for the AEAD ciphers, 0xFFFF for 2022), 2022 fixed header = [type, timestamp = clock, request-salt echo, length of the variable header], padding only on an empty first write and at most 900 bytes, sealed plaintext = address, padding, then exactly the bytes written, emitted length = salt + sum(chunk + tag). The receiver side (streams laid out from the specifications by an independent sender are accepted with the same payload in every segmentation) is the C04 check.',
+    note='A solver decides structure and limits, not byte equality of BLAKE3/HKDF/MD5/AES-GCM outputs with an independent implementation (those are pinned by the repository known-answer tests); VMess and Trojan sender layouts, datagram layouts and identity-header chains are not yet compared. Bounds: first write up to 3 chunks, second up to 2.',
+    technique='MIR symbolic execution to z3 (seal log of the real encoders against the specification layout)', design='DESIGN.md section 2, C03 and section 7')
+
 NOT_APPLICABLE = {
  'C08': 'property is about long-lived async accept/select! loops under injected socket/TLS/DNS faults; no synchronous core that symbolic execution of MIR or Kani can reach (tokio runtime, epoll, FFI)',
  'C09': 'quantifies over thread interleavings of shared state; Kani has no thread model and Engine M is sequential',
  'C15': 'EOF propagation through Stream::forward/try_join!, QUIC finish/stopped and descriptor release are runtime/OS behaviour with no synchronous core to encode',
 }
-PENDING = ['C01', 'C02', 'C03', 'C07', 'C10', 'C12', 'C13', 'C14', 'C16']
+PENDING = ['C02', 'C07', 'C10', 'C12', 'C13', 'C14', 'C16']
 
 m = {
  'version': 1,
